@@ -2,6 +2,7 @@
 import lang
 
 PARTS = ['initial', 'always', 'dynamic', 'final']
+PARTS_B = ['initial', 'always', 'dynamic', 'final', 'base', 'always', 'dynamic', 'final']      # with the alias `base`
 SGNS = ['p', 'n', 'm']
 
 
@@ -36,7 +37,7 @@ def core_head(rng, atoms, future=0.0, maxfut=2):
 
 
 def core_rule(rng, atoms, future_head=0.0, lookahead=0.0, maxfut=2):
-    part = rng.choice(PARTS)
+    part = rng.choice(PARTS_B)
     head = core_head(rng, atoms, future_head, maxfut)
     fut_ok = head[0] in ('cons', 'neghead') and rng.random() < lookahead
     if head[0] == 'neghead' and rng.random() < lookahead * 0.5:
@@ -189,3 +190,57 @@ def context_program(rng, atoms):
     if rng.random() < 0.3:
         rules.append(core_rule(rng, atoms))
     return rules
+
+
+# ------------------------------------------------------------------------------------------------ related formulas
+FLIP = {'next': 'wnext', 'wnext': 'next', 'prev': 'wprev', 'wprev': 'prev', 'until': 'release', 'release': 'until', 'since': 'trigger', 'trigger': 'since',
+        'seqnext': 'seqwnext', 'seqwnext': 'seqnext', 'seqprev': 'seqwprev', 'seqwprev': 'seqprev', 'and': 'or', 'or': 'and', 'dia': 'box', 'box': 'dia',
+        'initially': 'finally', 'finally': 'initially', 'choice': 'seq', 'seq': 'choice', 'true': 'false', 'false': 'true'}
+
+
+def subformulas(f, acc=None, head_ok=None):
+    acc = [] if acc is None else acc
+    if isinstance(f, tuple) and f and isinstance(f[0], str):
+        acc.append(f)
+        for x in f[1:]:
+            if isinstance(x, tuple):
+                subformulas(x, acc)
+    return acc
+
+
+def sibling(rng, f, allowed=None):
+    """f with one operator replaced by its weak/strong sibling or dual (a formula that shares most sub-formulas with f)"""
+    nodes = []
+
+    def walk(g, path):
+        if isinstance(g, tuple) and g and isinstance(g[0], str):
+            if g[0] in FLIP and (allowed is None or FLIP[g[0]] in allowed):
+                nodes.append(path)
+            for i, x in enumerate(g[1:], 1):
+                walk(x, path + (i,))
+    walk(f, ())
+    if not nodes:
+        return f
+    path = rng.choice(nodes)
+
+    def rep(g, pth):
+        if not pth:
+            return (FLIP[g[0]],) + tuple(g[1:])
+        i = pth[0]
+        return g[:i] + (rep(g[i], pth[1:]),) + g[i + 1:]
+    return rep(f, path)
+
+
+def related(rng, f, kind='tel'):
+    """a formula related to f: f itself, a sub-formula, a sibling, or f seen late through a past operator"""
+    k = rng.random()
+    if k < 0.2:
+        return f
+    if k < 0.45:
+        subs = [g for g in subformulas(f) if g[0] not in ('atom', 'skip', 'patom', 'test', 'choice', 'seq', 'star')]
+        if kind == 'del':
+            subs = [g for g in subs if g[0] in ('dia', 'box')]
+        return rng.choice(subs) if subs else f
+    if k < 0.8 or kind == 'del':
+        return sibling(rng, f)
+    return rng.choice([('initially', f), ('prev', None, f), ('since', None, f), ('seqprev', f, ('true',))])
